@@ -91,3 +91,177 @@ Qed.
 
 Lemma aruns_ret_inv {A} (a : A) v r : aruns (Ret a) v r -> r = ADone a v.
 Proof. intros H. inversion H; subst. reflexivity. Qed.
+
+(* ------------------------------------------------------------------ *)
+(* answer-insensitivity: the result of a program depends on the *core* of the view only
+   (stream, terminal event, cursor, mark, error taken, end seen) — not on how much happens to be
+   buffered (vhwm) nor on what has been asked for so far (vreq) *)
+Definition core (v : view) : bytes * option N * N * N * bool * bool :=
+  (vS v, vfail v, vcur v, vmark v, vtaken v, vknown v).
+
+Definition BytesOK (v : view) : Prop := Forall (fun b => b < 256) (vS v).
+
+Definition agree {A} (r1 r2 : ares A) : Prop :=
+  match r1, r2 with
+  | AStuck, _ => True
+  | _, AStuck => True
+  | ADone a1 v1, ADone a2 v2 => a1 = a2 /\ core v1 = core v2
+  | APanic k1, APanic k2 => k1 = k2
+  | AFuel, AFuel => True
+  | _, _ => False
+  end.
+
+(* [bound] exceeds the length of the input: it is what the model's loop fuel is measured against *)
+Definition CoreDet (bound : nat) {A} (p : prog A) : Prop :=
+  forall v1 v2 r1 r2,
+    core v1 = core v2 -> WFV v1 -> WFV v2 -> BytesOK v1 -> (length (vS v1) < bound)%nat ->
+    aruns p v1 r1 -> aruns p v2 r2 -> agree r1 r2.
+
+Lemma core_eq v1 v2 :
+  core v1 = core v2 ->
+  vS v1 = vS v2 /\ vfail v1 = vfail v2 /\ vcur v1 = vcur v2 /\ vmark v1 = vmark v2 /\ vtaken v1 = vtaken v2 /\
+  vknown v1 = vknown v2.
+Proof. unfold core. intros H. inversion H. repeat split; assumption. Qed.
+
+(* runs keep views well formed and never change the stream *)
+Lemma aruns_wf {A} (p : prog A) v r : aruns p v r -> WFV v -> forall a v', r = ADone a v' -> WFV v' /\ vS v' = vS v.
+Proof.
+  induction 1; intros Hwf a0 v0 E; try discriminate.
+  - inversion E; subst. split; [exact Hwf|reflexivity].
+  - exact (IHaruns (WFV_after_peek v k Hwf) a0 v0 E).
+  - exact (IHaruns Hwf a0 v0 E).
+  - exact (IHaruns (WFV_loaded v off o Hwf H) a0 v0 E).
+  - exact (IHaruns Hwf a0 v0 E).
+  - exact (IHaruns Hwf a0 v0 E).
+  - exact (IHaruns Hwf a0 v0 E).
+  - exact (IHaruns Hwf a0 v0 E).
+  - exact (IHaruns Hwf a0 v0 E).
+  - exact (IHaruns Hwf a0 v0 E).
+Qed.
+
+(* inversion of a run of a sequence *)
+Definition abnormal {A B} (r : ares A) (r' : ares B) : Prop :=
+  match r, r' with
+  | APanic k, APanic k' => k = k'
+  | AStuck, AStuck => True
+  | AFuel, AFuel => True
+  | _, _ => False
+  end.
+
+Lemma aruns_bind_inv {A B} (p : prog A) (f : A -> prog B) : forall v r,
+  aruns (pbind p f) v r ->
+  (exists a v', aruns p v (ADone a v') /\ aruns (f a) v' r) \/
+  (exists r0, aruns p v r0 /\ abnormal r0 r).
+Proof.
+  induction p as [a|k c IH|n c IH|off c IH|c IH|c IH|c IH|c IH|c IH|c IH|k|]; intros v r H; cbn [pbind] in H.
+  - left. exists a, v. split; [constructor|exact H].
+  - inversion H; subst.
+    match goal with Hx : aruns (pbind _ _) _ _ |- _ => destruct (IH _ _ _ Hx) as [(a & v' & Hq1 & Hq2)|(r0 & Hq1 & Hq2)] end.
+    + left. exists a, v'. split; [constructor; exact Hq1|exact Hq2].
+    + right. exists r0. split; [constructor; exact Hq1|exact Hq2].
+  - inversion H; subst.
+    + match goal with Hx : aruns (pbind _ _) _ _ |- _ => destruct (IH _ _ Hx) as [(a & v' & Hq1 & Hq2)|(r0 & Hq1 & Hq2)] end.
+      * left. exists a, v'. split; [apply ar_adv; assumption|exact Hq2].
+      * right. exists r0. split; [apply ar_adv; assumption|exact Hq2].
+    + right. exists AStuck. split; [apply ar_adv_stuck; assumption|exact I].
+  - inversion H; subst.
+    match goal with Hx : aruns (pbind _ _) _ _ |- _ => destruct (IH _ _ _ Hx) as [(a & v' & Hq1 & Hq2)|(r0 & Hq1 & Hq2)] end.
+    + left. exists a, v'. split; [eapply ar_tryload; eassumption|exact Hq2].
+    + right. exists r0. split; [eapply ar_tryload; eassumption|exact Hq2].
+  - inversion H; subst.
+    match goal with Hx : aruns (pbind _ _) _ _ |- _ => destruct (IH _ _ _ Hx) as [(a & v' & Hq1 & Hq2)|(r0 & Hq1 & Hq2)] end.
+    + left. exists a, v'. split; [constructor; exact Hq1|exact Hq2].
+    + right. exists r0. split; [constructor; exact Hq1|exact Hq2].
+  - inversion H; subst.
+    match goal with Hx : aruns (pbind _ _) _ _ |- _ => destruct (IH _ _ _ Hx) as [(a & v' & Hq1 & Hq2)|(r0 & Hq1 & Hq2)] end.
+    + left. exists a, v'. split; [constructor; exact Hq1|exact Hq2].
+    + right. exists r0. split; [constructor; exact Hq1|exact Hq2].
+  - inversion H; subst.
+    match goal with Hx : aruns (pbind _ _) _ _ |- _ => destruct (IH _ _ _ Hx) as [(a & v' & Hq1 & Hq2)|(r0 & Hq1 & Hq2)] end.
+    + left. exists a, v'. split; [constructor; exact Hq1|exact Hq2].
+    + right. exists r0. split; [constructor; exact Hq1|exact Hq2].
+  - inversion H; subst.
+    match goal with Hx : aruns (pbind _ _) _ _ |- _ => destruct (IH _ _ Hx) as [(a & v' & Hq1 & Hq2)|(r0 & Hq1 & Hq2)] end.
+    + left. exists a, v'. split; [constructor; exact Hq1|exact Hq2].
+    + right. exists r0. split; [constructor; exact Hq1|exact Hq2].
+  - inversion H; subst.
+    match goal with Hx : aruns (pbind _ _) _ _ |- _ => destruct (IH _ _ _ Hx) as [(a & v' & Hq1 & Hq2)|(r0 & Hq1 & Hq2)] end.
+    + left. exists a, v'. split; [constructor; exact Hq1|exact Hq2].
+    + right. exists r0. split; [constructor; exact Hq1|exact Hq2].
+  - inversion H; subst.
+    match goal with Hx : aruns (pbind _ _) _ _ |- _ => destruct (IH _ _ _ Hx) as [(a & v' & Hq1 & Hq2)|(r0 & Hq1 & Hq2)] end.
+    + left. exists a, v'. split; [constructor; exact Hq1|exact Hq2].
+    + right. exists r0. split; [constructor; exact Hq1|exact Hq2].
+  - inversion H; subst. right. exists (APanic k). split; [constructor|reflexivity].
+  - inversion H; subst. right. exists AFuel. split; [constructor|exact I].
+Qed.
+
+Lemma CoreDet_bind bound {A B} (p : prog A) (f : A -> prog B) :
+  CoreDet bound p -> (forall a, CoreDet bound (f a)) -> CoreDet bound (pbind p f).
+Proof.
+  intros Hp Hf v1 v2 r1 r2 Hc Hw1 Hw2 Hb Hlen H1 H2.
+  destruct (aruns_bind_inv p f v1 r1 H1) as [(a1 & w1 & Hp1 & Hf1)|(q1 & Hp1 & Hab1)];
+  destruct (aruns_bind_inv p f v2 r2 H2) as [(a2 & w2 & Hp2 & Hf2)|(q2 & Hp2 & Hab2)].
+  - pose proof (Hp _ _ _ _ Hc Hw1 Hw2 Hb Hlen Hp1 Hp2) as [-> Hcw]. cbn [agree] in *.
+    destruct (aruns_wf _ _ _ Hp1 Hw1 _ _ eq_refl) as [Hww1 HS1].
+    destruct (aruns_wf _ _ _ Hp2 Hw2 _ _ eq_refl) as [Hww2 HS2].
+    apply (Hf a2 w1 w2 r1 r2 Hcw Hww1 Hww2); auto; [unfold BytesOK in *|]; rewrite HS1; assumption.
+  - pose proof (Hp _ _ _ _ Hc Hw1 Hw2 Hb Hlen Hp1 Hp2) as Hag.
+    destruct q2; cbn [abnormal] in Hab2; try contradiction; destruct r2; try contradiction;
+      cbn [agree] in Hag; try contradiction; destruct r1; exact I.
+  - pose proof (Hp _ _ _ _ Hc Hw1 Hw2 Hb Hlen Hp1 Hp2) as Hag.
+    destruct q1; cbn [abnormal] in Hab1; try contradiction; destruct r1; try contradiction;
+      cbn [agree] in Hag; try contradiction; try exact I; destruct r2; try exact I; contradiction.
+  - pose proof (Hp _ _ _ _ Hc Hw1 Hw2 Hb Hlen Hp1 Hp2) as Hag.
+    destruct q1; cbn [abnormal] in Hab1; try contradiction; destruct r1; try contradiction;
+    destruct q2; cbn [abnormal] in Hab2; try contradiction; destruct r2; try contradiction;
+      cbn [agree] in *; try exact I; try contradiction; subst; auto.
+Qed.
+
+Lemma after_peek_core v1 v2 k : core v1 = core v2 -> vpeek v1 k = vpeek v2 k /\ core (after_peek v1 k) = core (after_peek v2 k).
+Proof.
+  intros H. destruct (core_eq _ _ H) as (a1 & a2 & a3 & a4 & a5 & a6).
+  assert (Hp : vpeek v1 k = vpeek v2 k) by (unfold vpeek; rewrite a1, a3; reflexivity).
+  split; [exact Hp|]. unfold core, after_peek; cbn [vS vfail vcur vmark vtaken vknown]. rewrite Hp, a1, a2, a3, a4, a5, a6. reflexivity.
+Qed.
+
+(* every program without a fast-path test is answer-insensitive *)
+Lemma det_CoreDet bound {A} (p : prog A) : det p -> CoreDet bound p.
+Proof.
+  induction p as [a|k c IH|n c IH|off c IH|c IH|c IH|c IH|c IH|c IH|c IH|k|]; cbn [det]; intros Hd v1 v2 r1 r2 Hc Hw1 Hw2 Hb Hlen H1 H2.
+  - inversion H1; inversion H2; subst. split; [reflexivity|exact Hc].
+  - inversion H1; inversion H2; subst. destruct (after_peek_core v1 v2 k Hc) as [Hp Hc'].
+    rewrite Hp in *. eapply (IH (vpeek v2 k) (Hd _)); eauto using WFV_after_peek.
+  - destruct (core_eq _ _ Hc) as (a1 & a2 & a3 & a4 & a5 & a6).
+    inversion H1; subst; [|exact I]. inversion H2; subst; [|destruct r1; exact I].
+    eapply (IH Hd (v_advance v1 n) (v_advance v2 n)); eauto.
+    unfold core, v_advance; cbn [vS vfail vcur vmark vtaken vknown]. rewrite a1, a2, a3, a4, a5, a6. reflexivity.
+  - contradiction.
+  - destruct (core_eq _ _ Hc) as (a1 & a2 & a3 & a4 & a5 & a6).
+    inversion H1; inversion H2; subst.
+    assert (E : s_atend v1 = s_atend v2) by (unfold s_atend; rewrite a1, a3, a6; reflexivity).
+    rewrite E in *. eapply (IH _ (Hd _)); eauto.
+  - destruct (core_eq _ _ Hc) as (a1 & a2 & a3 & a4 & a5 & a6).
+    inversion H1; inversion H2; subst.
+    assert (E : s_parked v1 = s_parked v2) by (unfold s_parked, v_err_now; rewrite a2, a5, a6; reflexivity).
+    rewrite E in *. eapply (IH _ (Hd _)); eauto.
+  - destruct (core_eq _ _ Hc) as (a1 & a2 & a3 & a4 & a5 & a6).
+    inversion H1; inversion H2; subst.
+    assert (E : s_take v1 = s_take v2) by (unfold s_take, v_err_now; rewrite a2, a5, a6; reflexivity).
+    rewrite E in *. eapply (IH _ (Hd _) (v_take v1 (s_take v2)) (v_take v2 (s_take v2))); eauto.
+    unfold core, v_take; cbn [vS vfail vcur vmark vtaken vknown]. rewrite a1, a2, a3, a4, a5, a6. reflexivity.
+  - destruct (core_eq _ _ Hc) as (a1 & a2 & a3 & a4 & a5 & a6).
+    inversion H1; inversion H2; subst. eapply (IH Hd (v_setmark v1) (v_setmark v2)); eauto.
+    unfold core, v_setmark; cbn [vS vfail vcur vmark vtaken vknown]. rewrite a1, a2, a3, a5, a6. reflexivity.
+  - destruct (core_eq _ _ Hc) as (a1 & a2 & a3 & a4 & a5 & a6).
+    inversion H1; inversion H2; subst. rewrite a4 in *. eapply (IH _ (Hd _)); eauto.
+  - destruct (core_eq _ _ Hc) as (a1 & a2 & a3 & a4 & a5 & a6).
+    inversion H1; inversion H2; subst. rewrite a3 in *. eapply (IH _ (Hd _)); eauto.
+  - inversion H1; inversion H2; subst. reflexivity.
+  - inversion H1; inversion H2; subst. exact I.
+Qed.
+
+Lemma det_bind {A B} (p : prog A) (f : A -> prog B) : det p -> (forall a, det (f a)) -> det (pbind p f).
+Proof.
+  induction p as [a|k c IH|n c IH|off c IH|c IH|c IH|c IH|c IH|c IH|c IH|k|]; cbn [det pbind]; intros Hd Hf; auto.
+Qed.
